@@ -2,9 +2,10 @@
    Only statements, each closed by `exact <lemma>` (or a one-line unfolding), followed by Print Assumptions.
    All theorems are over R (stdlib real axioms), for every number of rows / columns; the model is
    Model/K13_InfoWeight.v instantiated with the real operations [R_ops]. *)
-From Coq Require Import ZArith Reals List Lra Lia Sorted Permutation.
+From Coq Require Import ZArith Reals List Lra Lia Sorted Permutation PrimFloat.
 From VZ Require Import Model.K11_SparseVec Model.K12_Dist Model.K13_InfoWeight
-  Proofs.K11_SparseVec_proofs Proofs.K12_RealFacts Proofs.K12_Dist_proofs Proofs.K13_InfoWeight_proofs.
+  Proofs.K11_SparseVec_proofs Proofs.K12_RealFacts Proofs.K12_Dist_proofs Proofs.K13_InfoWeight_proofs
+  Model.K12_Float Model.K13_Float.
 Import ListNotations.
 Open Scope R_scope.
 
@@ -134,12 +135,31 @@ Print Assumptions C17_weight_nonneg.
 (* ---- InformationWeightTransformer: learned weights (mean-normalise, clamp at 0, power) are >= 0; transform is
         X * diag(w): entrywise X_ij * w_j, hence linear in X and zero wherever X is zero.
         (In floats the mean-normalisation needs a non-zero mean: see the known finding on all-zero weights.) *)
-Theorem C17_weights_nonneg : forall eps (w : list R) (p : R),
+(* guard: the mean of the raw weights is not zero (over R division by zero is total, so the unguarded statement would
+   hold for the wrong reason; in binary64 a zero mean gives 0/0 = NaN - see C17_weights_zero_mean_float_nan) *)
+Theorem C17_weights_nonneg_partial : forall eps (w : list R) (p : R), sumR w <> 0 ->
   finish_weights R (R_ops eps) R_pow w p
   = map (fun x => R_pow (Rmax (x / (sumR w / INR (length w))) 0) p) w
   /\ Forall (fun x => 0 <= x) (finish_weights R (R_ops eps) R_pow w p).
 Proof. intros. split; [apply finish_weights_R|apply finish_weights_nonneg]. Qed.
-Print Assumptions C17_weights_nonneg.
+Print Assumptions C17_weights_nonneg_partial.
+
+(* known finding transformer-zero-mean-weights: the binary64 model of the same code returns NaN weights when every raw
+   weight is 0 (single column, rank-1 counts): the learned weights are then not non-negative numbers *)
+Example C17_weights_zero_mean_float_nan : exists (w : list PrimFloat.float) (p : PrimFloat.float),
+  existsb (fun x => negb (PrimFloat.eqb x x)) (finish_weights PrimFloat.float (F_ops PrimFloat.zero) f_pow w p) = true.
+Proof. exists [PrimFloat.zero; PrimFloat.zero], PrimFloat.two. vm_compute. reflexivity. Qed.
+(* (an Example, not a gated Theorem: it computes with Coq's primitive binary64 operations, which Print Assumptions lists) *)
+
+(* known finding noncanonical-duplicate-entries: with a row index stored twice the search reads one of the two values,
+   not their sum (the theorems above exclude this by NoDup (map fst c)) *)
+Theorem C17_duplicates_refuted : exists (inds : list Z) (data : list Z) (i : Z),
+  StronglySorted Z.le inds /\ In i inds /\
+  nth_error data (searchsorted inds i) <> Some (fold_right Z.add 0%Z (map snd (filter (fun e => Z.eqb (fst e) i) (combine inds data)))).
+Proof.
+  exists [0; 0; 2]%Z, [1; 1; 3]%Z, 0%Z. split; [repeat constructor; lia|]. split; [left; reflexivity|]. vm_compute. discriminate.
+Qed.
+Print Assumptions C17_duplicates_refuted.
 
 Theorem C17_transform_is_diag_scaling : forall eps rows w i j, (i < length rows)%nat ->
   (j < length (nth i rows []))%nat -> (j < length w)%nat ->
